@@ -82,17 +82,32 @@ AddOne(o, x) ==
              ELSE \* :255-268 first heap block, capacity count*2, copy 3 handles, flag set
                   [o EXCEPT !.h = Append(@, x), !.heap = TRUE, !.cap = 2 * n]
 
-(* add() of every element of s in order: resulting object .o and number .a of new[] executed
-   (split in halves only to keep TLC's evaluation stack shallow for long s) *)
-RECURSIVE AddRun(_, _)
+(* add() of every element of s in order, literally: resulting object .o, number .a of new[] executed *)
+AddIter(o, s) ==
+    LET F[k \in 0..Len(s)] == IF k = 0 THEN [o |-> o, a |-> 0]
+                                       ELSE LET p == F[k - 1]
+                                            IN [o |-> AddOne(p.o, s[k]), a |-> p.a + B2N(Full(p.o))]
+    IN F[Len(s)]
+
+(* The same in closed form (TLC evaluates the recursion above on a stack that is too small for runs
+   of 25 and more handles): add() doubles the capacity - 3 inline slots, then the block - whenever
+   count = capacity, so the run executes as many new[] as doublings are needed to hold everything.
+   The ASSUME below makes TLC check the equivalence for every start (inline / heap with 0..9 handles,
+   also after pops) and every run length 0..20 before each model-checking run. *)
+RECURSIVE Doublings(_, _)
+Doublings(c, n) == IF n <= c THEN 0 ELSE 1 + Doublings(2 * c, n)
 AddRun(o, s) ==
-    IF s = <<>> THEN [o |-> o, a |-> 0]
-    ELSE IF Len(s) = 1 THEN [o |-> AddOne(o, s[1]), a |-> B2N(Full(o))]
-    ELSE LET m == Len(s) \div 2
-             l == TLCEval(AddRun(o, SubSeq(s, 1, m)))
-             lo == TLCEval(l.o)
-             r == TLCEval(AddRun(lo, SubSeq(s, m + 1, Len(s))))
-         IN [o |-> r.o, a |-> l.a + r.a]
+    LET c0 == IF o.heap THEN o.cap ELSE InlineCap
+        j == Doublings(c0, Len(o.h) + Len(s))
+    IN [o |-> [o EXCEPT !.h = @ \o s, !.heap = @ \/ j > 0, !.cap = IF o.heap \/ j > 0 THEN c0 * 2^j ELSE 0],
+        a |-> j]
+
+ASSUME \A n0 \in 0..9, m \in 0..9, k \in 0..20 :
+          m <= n0 =>
+             LET full == AddIter(Fresh(FALSE, 0, <<>>), [i \in 1..n0 |-> i]).o
+                 o == [full EXCEPT !.h = SubSeq(@, 1, m)]            \* after n0 - m pops
+                 s == [i \in 1..k |-> 100 + i]
+             IN AddRun(o, s) = AddIter(o, s)
 
 (* _count_flag = 0 without touching the block: clear_internal after its delete[] (:218-223), the
    source of operator<< (:77) and of the move constructor (:61) *)
